@@ -175,6 +175,9 @@ def check(chk):
     _events_switched_on(chk, repo)
     _score_queue_adds(chk, repo)
     _remembered_selection(chk, repo, md, super_chain)
+    _restart_list(chk, repo)
+    from sa.helpers import unload_cleanup_unconditional
+    unload_cleanup_unconditional(chk, "PAIR-12")
 
     # ------------------------------------------------------------ FLOW-4
     n_f = 0
@@ -446,6 +449,43 @@ def _remembered_selection(chk, repo, md, super_chain):
     chk.expect(n_w >= 3, "C11: devices whose enable() writes persisted flags lost (%d)" % n_w)
 
 
+def _restart_list(chk, repo):
+    """RESTART-11: modes to restart on a player's next ball are remembered in that player (appended at ball end for every active game mode
+    that asks for it, whatever else the loop decides), started - all of them - when that player's next ball starts, and then
+    forgotten: the list is replaced by a new empty one, so a mode the player stops during that ball does not come back on the ball
+    after.  A new player starts with an empty list of their own."""
+    from sa.cfg import canon_set, canon_fact
+    from sa.helpers import inloop_guards, positive
+    bs = repo.func(MC, "ModeController._ball_starting")
+    be = repo.func(MC, "ModeController._ball_ending")
+    pa = repo.func(MC, "ModeController._player_added")
+    chk.analysed(bs, be, pa)
+    cfg = bs.cfg()
+    lps = [h for h in cfg.nodes if h.kind == "loop"]
+    st = [(n, c) for n, c in cfg.calls_named("start")]
+    chk.need(len(lps) == 1 and len(st) == 1, "RESTART-11", "_ball_starting restarts the remembered modes", bs)
+    ok = src(lps[0].ast.iter).endswith("player.restart_modes_on_next_ball") and not inloop_guards(cfg, st[0][0].id, lps[0].id) and \
+        src(st[0][1].func.value) == src(lps[0].ast.target) and not [y for y in ast.walk(lps[0].ast) if isinstance(y, (ast.Break, ast.Return, ast.Continue))]
+    chk.ob("RESTART-11", "every mode remembered for the player's next ball is started", ok, bs.where(lps[0].ast), construct=bs.ident, text="restart loop")
+    rs = [n for n in cfg.nodes if n.kind == "stmt" and isinstance(n.ast, ast.Assign) and src(n.ast.targets[0]).endswith("player.restart_modes_on_next_ball")]
+    ok = len(rs) == 1 and src(rs[0].ast.value).replace(" ", "") in ("list()", "[]") and not cfg.guards_at(rs[0].id) and \
+        cfg.must_pass(cfg.entry.id, [rs[0].id], ends=[cfg.exit.id]) is None and rs[0].lineno > lps[0].lineno
+    chk.ob("RESTART-11", "after the restart the list is replaced by a new empty one on every path (nothing is carried to the ball after)", ok, bs.where(), construct=bs.ident,
+           text="restart list emptied")
+    ecfg = be.cfg()
+    ap = [(n, c) for n, c in ecfg.calls_named("append") if src(c.func.value).endswith("player.restart_modes_on_next_ball")]
+    elp = [h for h in ecfg.nodes if h.kind == "loop"]
+    chk.need(len(ap) == 1 and len(elp) == 1, "RESTART-11", "_ball_ending remembers the modes to restart", be)
+    got = positive(inloop_guards(ecfg, ap[0][0].id, elp[0].id))
+    want = positive({canon_fact("mode.is_game_mode", True), canon_fact("mode.restart_on_next_ball", True)})
+    ok = got == want and [src(a) for a in ap[0][1].args] == [src(elp[0].ast.target)] and src(elp[0].ast.iter) == "self.active_modes"
+    chk.ob("RESTART-11", "at ball end exactly the active game modes that ask for it are remembered in the current player", ok, be.where(ap[0][1]),
+           detail="selected by %s" % sorted(got), construct=be.ident, text="restart list filled")
+    ini = [x for x in walk_local(pa.node) if isinstance(x, ast.Assign) and src(x.targets[0]) == "player.restart_modes_on_next_ball"]
+    ok = len(ini) == 1 and src(ini[0].value).replace(" ", "") in ("list()", "[]")
+    chk.ob("RESTART-11", "a new player starts with an empty restart list of their own", ok, pa.where(), construct=pa.ident, text="restart list initial")
+
+
 def _score_queue_adds(chk, repo):
     """BARRIER-1 (conservation): the score queue *adds* each digit to the player's variable and takes the same amount off the remaining
     score -- it never overwrites what the player has accumulated."""
@@ -589,6 +629,9 @@ def battery():
         M("new player's variable events never switched on", "mpf/modes/game/code/game.py", "        player.enable_events(True, True)", "        pass", "DOM-21"),
         M("achievement group keeps its remembered selection over unload", "mpf/devices/achievement_group.py", "        self._loaded = False\n        self._selected_member = None\n", "        self._loaded = False\n", "MEMO-11"),
         M("shot group auto-enabled at mode start", "mpf/devices/shot_group.py", "    def add_control_events_in_mode(self, mode) -> None:\n        \"\"\"Remove enable here.\"\"\"\n\n", "", "RESTORE-11"),
+        M("persisted state machine keeps its handlers on unload", "mpf/devices/state_machine.py", "        self._remove_handlers()\n        self.notify_virtual_change(\"state\", self.state, None)\n        self._state = None", "        self.notify_virtual_change(\"state\", self.state, None)\n        if not self.config['persist_state']:\n            self._remove_handlers()\n            self._state = None", "PAIR-12"),
+        M("restart list keeps the modes that have not finished starting", MC, "        self.machine.game.player.restart_modes_on_next_ball = list()\n\n    def _ball_ending", "        self.machine.game.player.restart_modes_on_next_ball = [m for m in self.machine.game.player.restart_modes_on_next_ball if not m.active]\n\n    def _ball_ending", "RESTART-11"),
+        M("restart only remembered for modes that stop at ball end", MC, "            if mode.restart_on_next_ball:", "            if mode.restart_on_next_ball and mode.auto_stop_on_ball_end:", "RESTART-11"),
     ]
 
 
